@@ -476,6 +476,8 @@ def string_shard(arg):
         for nlseq in (nl_seqs if full else nl_seqs[:2]):
             env = Environment(newline_sequence=nlseq)
             for family, sp, kind in string_spellings(s, thorough and full):
+                if nlseq != "\n" and family in ("concat2", "concat3"):
+                    continue  # joining adjacent literals is checked under the default newline_sequence only
                 p.evals += 1
                 expected = s if kind == "exact" else _nl.sub(nlseq, s)  # CALIBRATED: raw line breaks -> newline_sequence
                 # cross-check the spelling generator against Python itself wherever Python can read the spelling
